@@ -101,26 +101,32 @@ package main
 
 // filterList, deny direction ("tags excluded by the filters are left exactly as they were"): no tag
 // of the result matches - as a whole - any expression of the deny list, and no empty name is
-// returned. $reMatch(pattern, s) is regexp matching as an uninterpreted function; the pattern is
-// the anchored group the code compiles. Assumed at entry (not provable from call sites without
-// allocation reasoning): the deny list and the tag list do not share a backing array.
+// returned. Vocabulary: $reMatch(pattern, s) is regexp matching (uninterpreted), $denyAt(k) names the
+// k-th deny expression at entry, $deniedUpTo(n, s) says "s matches one of the first n deny
+// expressions, each anchored as a group" (recursive definition by the two axioms). Assumed at
+// entry (not provable from call sites without allocation reasoning): the deny list and the tag
+// list do not share a backing array.
+//@ ufun $denyAt(int) string
+//@ ufun $deniedUpTo(int, string) bool
+//@ axiom denied-by-none: forall(s, string, !$deniedUpTo(0, s))
+//@ axiom denied-step: forall(n, int, forall(s, string, n >= 1 ==> ($deniedUpTo(n, s) == ($deniedUpTo(n - 1, s) || $reMatch("^(?:" + $denyAt(n - 1) + ")$", s)))))
 //@ func filterList(ad, in) (out, err)
 //@   prop C18
 //@   entry-assume $arr(ad.Deny) != $arr(in) && $arr(ad.Deny) >= 0 && $arr(in) >= 0
+//@   entry-assume forall(dd, 0, len(ad.Deny), $denyAt(dd) == ad.Deny[dd])
 //@   let deny = ad.Deny
 //@   loop 0 (filter)
-//@     invariant deny-list-untouched: ad.Deny == deny && forall(dd, 0, len(deny), deny[dd] == old(deny[dd]))
+//@     invariant deny-list-untouched: ad.Deny == deny && forall(dd, 0, len(deny), deny[dd] == $denyAt(dd))
 //@   loop 1 (i)
-//@     invariant deny-list-untouched: ad.Deny == deny && forall(dd, 0, len(deny), deny[dd] == old(deny[dd]))
+//@     invariant deny-list-untouched: ad.Deny == deny && forall(dd, 0, len(deny), deny[dd] == $denyAt(dd))
 //@   loop 2 (filter)
-//@     invariant deny-list-untouched: ad.Deny == deny && -1 <= $idx__3 && $idx__3 < len(deny) && forall(dd, 0, len(deny), deny[dd] == old(deny[dd]))
-//@     invariant denied-so-far-blanked: forall(k, 0, len(result), forall(dd, 0, $idx__3 + 1, result[k] == "" || !$reMatch("^(?:" + deny[dd] + ")$", result[k])))
+//@     invariant deny-list-untouched: ad.Deny == deny && -1 <= $idx__3 && $idx__3 < len(deny) && forall(dd, 0, len(deny), deny[dd] == $denyAt(dd))
+//@     invariant denied-so-far-blanked: forall(k, 0, len(result), result[k] == "" || !$deniedUpTo($idx__3 + 1, result[k]))
 //@   loop 3 (i)
-//@     invariant deny-list-untouched: ad.Deny == deny && 0 <= $idx__3 && $idx__3 < len(deny) && filter__2 == deny[$idx__3] && exp__2 != nil && $pat(exp__2) == "^(?:" + filter__2 + ")$" && forall(dd, 0, len(deny), deny[dd] == old(deny[dd]))
-//@     invariant denied-so-far-blanked: forall(k, 0, len(result), forall(dd, 0, $idx__3, result[k] == "" || !$reMatch("^(?:" + deny[dd] + ")$", result[k])))
-//@     invariant current-filter-applied: -1 <= $idx__4 && $idx__4 < len(result) && forall(k, 0, $idx__4 + 1, result[k] == "" || !$reMatch("^(?:" + filter__2 + ")$", result[k]))
+//@     invariant deny-list-untouched: ad.Deny == deny && 0 <= $idx__3 && $idx__3 < len(deny) && filter__2 == $denyAt($idx__3) && exp__2 != nil && $pat(exp__2) == "^(?:" + filter__2 + ")$" && forall(dd, 0, len(deny), deny[dd] == $denyAt(dd))
+//@     invariant denied-so-far-blanked: forall(k, 0, len(result), result[k] == "" || !$deniedUpTo($idx__3, result[k]))
+//@     invariant current-filter-applied: -1 <= $idx__5 && $idx__5 < len(result) && forall(k, 0, $idx__5 + 1, result[k] == "" || !$reMatch("^(?:" + filter__2 + ")$", result[k]))
 //@   loop 4 (i)
-//@     invariant deny-list-untouched: ad.Deny == deny && forall(dd, 0, len(deny), deny[dd] == old(deny[dd]))
-//@     invariant all-denied-blanked: forall(k, 0, len(result), forall(dd, 0, len(deny), result[k] == "" || !$reMatch("^(?:" + deny[dd] + ")$", result[k])))
-//@     invariant compressed-clean: forall(j, 0, len(compressed), compressed[j] != "" && forall(dd, 0, len(deny), !$reMatch("^(?:" + deny[dd] + ")$", compressed[j])))
-//@   ensures denied-tags-never-selected: err == nil ==> forall(j, 0, len(out), out[j] != "" && forall(dd, 0, len(old(ad.Deny)), !$reMatch("^(?:" + old(ad.Deny[dd]) + ")$", out[j])))
+//@     invariant all-denied-blanked: len(ad.Deny) == len(deny) && forall(k, 0, len(result), result[k] == "" || !$deniedUpTo(len(deny), result[k]))
+//@     invariant compressed-clean: forall(j, 0, len(compressed), compressed[j] != "" && !$deniedUpTo(len(deny), compressed[j]))
+//@   ensures denied-tags-never-selected: err == nil ==> forall(j, 0, len(out), out[j] != "" && !$deniedUpTo(len(old(ad.Deny)), out[j]))
